@@ -246,6 +246,8 @@ func (sfd *StatusFileData) Save(filename string) error {
 
 // Save saves status to a file.
 func (bwu *BaseWorkUnit) Save() error {
+	verifhook.At("mem.rlock.before", bwu.unitID)
+	defer verifhook.At("mem.rlock.released", bwu.unitID)
 	bwu.statusLock.RLock()
 	defer bwu.statusLock.RUnlock()
 
@@ -290,6 +292,8 @@ func (sfd *StatusFileData) Load(filename string) error {
 
 // Load loads status from a file.
 func (bwu *BaseWorkUnit) Load() error {
+	verifhook.At("mem.lock.before", bwu.unitID)
+	defer verifhook.At("mem.lock.released", bwu.unitID)
 	bwu.statusLock.Lock()
 	defer bwu.statusLock.Unlock()
 
@@ -355,6 +359,8 @@ func (sfd *StatusFileData) UpdateFullStatus(filename string, statusFunc func(*St
 // UpdateFullStatus atomically updates the whole status record.  Changes should be made in the callback function.
 // Errors are logged rather than returned.
 func (bwu *BaseWorkUnit) UpdateFullStatus(statusFunc func(*StatusFileData)) {
+	verifhook.At("mem.lock.before", bwu.unitID)
+	defer verifhook.At("mem.lock.released", bwu.unitID)
 	bwu.statusLock.Lock()
 	defer bwu.statusLock.Unlock()
 
@@ -383,6 +389,8 @@ func (sfd *StatusFileData) UpdateBasicStatus(filename string, state int, detail 
 // UpdateBasicStatus atomically updates key fields in the status metadata file.  Errors are logged rather than returned.
 // Passing -1 as stdoutSize leaves it unchanged.
 func (bwu *BaseWorkUnit) UpdateBasicStatus(state int, detail string, stdoutSize int64) {
+	verifhook.At("mem.lock.before", bwu.unitID)
+	defer verifhook.At("mem.lock.released", bwu.unitID)
 	bwu.statusLock.Lock()
 	defer bwu.statusLock.Unlock()
 
@@ -477,6 +485,8 @@ func (bwu *BaseWorkUnit) Status() *StatusFileData {
 
 // UnredactedStatus returns a copy of the status currently loaded in memory, including secrets.
 func (bwu *BaseWorkUnit) UnredactedStatus() *StatusFileData {
+	verifhook.At("mem.rlock.before", bwu.unitID)
+	defer verifhook.At("mem.rlock.released", bwu.unitID)
 	bwu.statusLock.RLock()
 	defer bwu.statusLock.RUnlock()
 
